@@ -65,7 +65,11 @@ func checkC20(c *Ctx) {
 	var unguarded []string
 	for _, g := range guards {
 		if !concurrentStruct(g.OwnerT) {
-			continue
+			// a record type without its own lock: it is shared if some of its post-construction accesses
+			// are made under a lock (e.g. registry records mutated under the registry's mutex) — then all must be
+			if g.Guard == "" {
+				continue
+			}
 		}
 		nFields++
 		if reason, ok := c20Exceptions[g.Field]; ok {
